@@ -22,6 +22,7 @@ func main() {
 			{Name: "rand-alphabet", Gen: genAlphabet},
 			{Name: "uv-rand", Gen: genUVRand},
 			{Name: "histories", Gen: genHistories},
+			{Name: "joint", Gen: genJoint},
 		}, groups...)
 	}
 	vlib.Main("C11", groups...)
